@@ -24,6 +24,7 @@ type LoopContract struct {
 }
 
 type ParamContract struct {
+	MayPanic bool
 	Requires []*Clause
 	Ensures  []*Clause
 	Modifies []*Clause
@@ -445,6 +446,9 @@ func (cs *Contracts) parseContractFile(path string, content []byte, pkgName stri
 				fail(it.line, "bad param clause")
 				continue
 			}
+			if len(f) == 2 {
+				f = append(f, "")
+			}
 			pc := cur.Params[f[0]]
 			if pc == nil {
 				pc = &ParamContract{}
@@ -460,6 +464,8 @@ func (cs *Contracts) parseContractFile(path string, content []byte, pkgName stri
 				if c := mk(body, it.line); c != nil {
 					pc.Ensures = append(pc.Ensures, c)
 				}
+			case "maypanic":
+				pc.MayPanic = true
 			case "modifies":
 				pc.HasMod = true
 				if body != "" && body != "nothing" {
